@@ -27,7 +27,7 @@ RULE = (
     "on 3-4-5 directions, mindist in {0, 1e-3..1e4}; (b) seeded random clouds at scales 1e-6..1e8 with coincident data/force points; "
     "(c) dyadic clouds shifted by dyadic offsets (bit-identical Jacobians required); (d) VectorSpline2D with Poisson in [-1,1] incl. "
     "+-1 and mindist in {0, 1e-3..1e4}; (e) Trend degrees 0..6; (f) CheckerBoard with default and explicit wavelengths; (g) Linear / "
-    "Cubic with both rescale settings on isotropic and strongly anisotropic clouds; (h) integer-typed (int32 / int64) query and force coordinates, including values whose squares / powers overflow the integer dtype; (i) life-cycle histories: evaluate, change parameters on the same object (set_params or attribute assignment: CheckerBoard region / amplitude / wavelengths, Spline mindist / forces, VectorSpline2D poisson / mindist, Trend degree, Linear / Cubic rescale between fits, instances of sibling classes with different rescale fitted one after the other), evaluate again; (j) fitted Spline / VectorSpline2D / Trend / Chain / "
+    "Cubic with both rescale settings on isotropic and strongly anisotropic clouds; (h) integer-typed (int32 / int64) query and force coordinates, including values whose squares / powers overflow the integer dtype; (i) life-cycle histories: evaluate, change parameters on the same object (set_params or attribute assignment: CheckerBoard region / amplitude / wavelengths, Spline mindist / forces, VectorSpline2D poisson / mindist, Trend degree, Linear / Cubic rescale between fits, instances of sibling classes with different rescale fitted one after the other), evaluate again; (j) equivalent spellings of option values (rescale as numpy.bool_ / comparison result / 1, 0 / 0-d array; mindist, damping, poisson, degree, amplitude, wavelengths as int / numpy integer / numpy float; region as list / tuple / ndarray of ints or numpy scalars), given positionally, by keyword or through set_params; (k) fitted Spline / VectorSpline2D / Trend / Chain / "
     "Vector / SplineCV through predict, grid, scatter and profile. Parameters are set by hand (unit vectors, random vectors) on unfitted "
     "estimators as well as estimated by fit; queries are 0-d, 1-D, 2-D and 3-D. A monitored evaluation is non-trivial when its kernel "
     "arguments contain a coincident pair or at least one distance in each of (0,1), [1,e) and >= e (spline family), degree >= 2 (Trend), "
@@ -68,8 +68,8 @@ MPMATH_BUDGET = {"quick": 260, "thorough": 60}  # per process (thorough runs 16 
 
 def plan(tier):
     if tier == "quick":
-        return collections.OrderedDict(ladder=360, pairs=480, translation=240, vector=420, trend=480, checker=420, scipy=420, fitted=300, integer=210, history=240)
-    return collections.OrderedDict(ladder=7200, pairs=9600, translation=4800, vector=8400, trend=9600, checker=8400, scipy=8400, fitted=6000, integer=4200, history=4800)
+        return collections.OrderedDict(ladder=360, pairs=480, translation=240, vector=420, trend=480, checker=420, scipy=420, fitted=300, integer=210, history=240, spelling=300)
+    return collections.OrderedDict(ladder=7200, pairs=9600, translation=4800, vector=8400, trend=9600, checker=8400, scipy=8400, fitted=6000, integer=4200, history=4800, spelling=6000)
 
 
 # ----------------------------------------------------------------------
@@ -1203,7 +1203,127 @@ def _history_checker(run, rng, verde, index):
         evaluate()
 
 
-_STREAMS = {"history": _stream_history, "integer": _stream_integer, "ladder": _stream_ladder, "pairs": _stream_pairs, "translation": _stream_translation, "vector": _stream_vector,
+def _spellings_of(value, rng):
+    """Equivalent spellings of an integer-valued or boolean option value: (label, object) pairs."""
+    if isinstance(value, bool):
+        return [("bool", value), ("numpy.bool_", np.bool_(value)), ("comparison", np.float64(1.0) > (0.0 if value else 2.0)), ("int", int(value)),
+                ("0-d array", np.array(value)), ("numpy.int64", np.int64(int(value)))]
+    v = int(value)
+    return [("int", v), ("float", float(v)), ("numpy.int64", np.int64(v)), ("numpy.int32", np.int32(v)), ("numpy.float64", np.float64(v)), ("numpy.float32", np.float32(v))]
+
+
+def _construct(cls, how, name, value, rng, positional_index=None, placeholder=None, **others):
+    """Give one option to an estimator positionally, by keyword or through set_params."""
+    if how == "positional" and positional_index == 0:
+        return cls(value, **others)
+    if how == "set_params":
+        obj = cls(**others) if placeholder is None else cls(**dict(others, **{name: placeholder}))
+        obj.set_params(**{name: value})
+        return obj
+    return cls(**dict(others, **{name: value}))
+
+
+def _stream_spelling(run, rng, verde, index):
+    """The same option VALUE in another spelling (numpy scalar, int for float, 0-d array ...) must evaluate the same documented formula."""
+    kind = index % 5
+    how = ("keyword", "positional", "set_params")[(index // 5) % 3]
+    if kind == 0:  # Linear / Cubic rescale on strongly anisotropic coordinates
+        n = int(rng.integers(8, 50))
+        east, north = gen.cloud(rng, n, kind="uniform", scale=gen.log_uniform(rng, 1e-1, 1e4), offset_factor=0.0)
+        north = north * float(10 ** rng.uniform(2, 4))
+        data = gen.smooth_field(rng, east, north)
+        tri = rng.integers(0, n, (16, 3))
+        wts = rng.dirichlet(np.ones(3), 16)
+        query = ((east[tri] * wts).sum(axis=1), (north[tri] * wts).sum(axis=1))
+        cls = (verde.Linear, verde.Cubic)[(index // 15) % 2]
+        flag = bool((index // 30) % 2 == 0)  # True first: it is the value that differs from the default
+        for label, value in _spellings_of(flag, rng):
+            grd = _construct(cls, how, "rescale", value, rng, positional_index=0)
+            try:
+                grd.fit((east, north), data)
+            except Exception as exc:  # noqa: BLE001
+                if "qhull" in (type(exc).__name__ + str(exc)).lower():
+                    run.count("refused:qhull")
+                    return
+                raise
+            grd.predict(query)
+            run.count("spelling:rescale=%s:%s" % (flag, label))
+    elif kind == 1:  # Spline mindist (and damping for the fit) as int / numpy integer
+        n = int(rng.integers(4, 40))
+        east, north = gen.cloud(rng, n, scale=float(rng.choice([5.0, 50.0, 500.0])), offset_factor=0.0)
+        data = gen.smooth_field(rng, east, north, 1.0)
+        mindist = int(rng.choice([0, 1, 2, 5]))
+        damping = int(rng.choice([1, 3, 10]))
+        for label, value in _spellings_of(mindist, rng):
+            others = {"damping": _spellings_of(damping, rng)[int(rng.integers(0, 6))][1]}
+            spl = _construct(verde.Spline, how, "mindist", value, rng, positional_index=0, **others)
+            spl.jacobian((east, north), (east[:5], north[:5]))
+            spl.fit((east, north), data)
+            spl.predict((east + 0.25, north - 0.5))
+            run.count("spelling:mindist:" + label)
+    elif kind == 2:  # VectorSpline2D poisson as int -1 / 0 / 1, mindist as integer
+        n = int(rng.integers(4, 30))
+        east, north = gen.cloud(rng, n, scale=float(rng.choice([20.0, 200.0])), offset_factor=0.0)
+        poisson = int(rng.choice([-1, 0, 1]))
+        mindist = int(rng.choice([1, 3, 10]))
+        fc = (east[: max(1, n // 2)].copy(), north[: max(1, n // 2)].copy())
+        for label, value in _spellings_of(poisson, rng):
+            others = {"mindist": _spellings_of(mindist, rng)[int(rng.integers(0, 6))][1], "force_coords": fc}
+            vec = _construct(verde.VectorSpline2D, how, "poisson", value, rng, positional_index=0, **others)
+            vec.jacobian((east, north), fc)
+            vec.force_ = rng.normal(size=2 * fc[0].size)
+            vec.predict((east + 0.25, north))
+            run.count("spelling:poisson=%d:%s" % (poisson, label))
+    elif kind == 3:  # Trend degree as numpy integer
+        n = int(rng.integers(2, 40))
+        east, north = gen.cloud(rng, n, scale=gen.log_uniform(rng, 1e-1, 1e2), offset_factor=0.0)
+        degree = int(rng.integers(0, 6))
+        nterms = (degree + 1) * (degree + 2) // 2
+        for label, value in [("int", degree), ("numpy.int64", np.int64(degree)), ("numpy.int32", np.int32(degree)), ("numpy.intp", np.intp(degree)),
+                             ("numpy.uint8", np.uint8(degree)), ("0-d int array", np.array(degree))]:
+            trend = _construct(verde.Trend, how, "degree", value, rng, positional_index=0, placeholder=(degree + 1) % 6)
+            trend.jacobian((east, north))
+            trend.coef_ = rng.normal(size=nterms)
+            trend.predict((east, north))
+            run.count("spelling:degree:" + label)
+    else:  # CheckerBoard amplitude / wavelengths / region entries as ints and numpy scalars; region as list / tuple / ndarray
+        w, s_ = int(rng.integers(-50, 50)), int(rng.integers(-50, 50))
+        region = [w, w + int(rng.integers(2, 40)), s_, s_ + int(rng.integers(2, 40))]
+        amplitude = int(rng.integers(1, 2000)) * int(rng.choice([-1, 1]))
+        w_east = None if rng.random() < 0.4 else int(rng.integers(1, 30))
+        w_north = None if rng.random() < 0.4 else int(rng.integers(1, 30))
+        q = int(rng.integers(4, 20))
+        qe, qn = rng.uniform(region[0], region[1], q), rng.uniform(region[2], region[3], q)
+        containers = [("list of int", list(region)), ("tuple of int", tuple(region)), ("int64 ndarray", np.array(region, dtype="int64")),
+                      ("int32 ndarray", np.array(region, dtype="int32")), ("float ndarray", np.array(region, dtype="float64")),
+                      ("tuple of numpy.int64", tuple(np.int64(v) for v in region)), ("list of numpy.float64", [np.float64(v) for v in region])]
+        # numpy.float32 wavelengths / region entries are left out: 2*pi / numpy.float32(w) is a float32 division under numpy's scalar promotion,
+        # i.e. that spelling declares a precision and is not an equivalent spelling of the same float64 value (observation in the report)
+        for (rlabel, reg), (label, amp) in zip(containers, _spellings_of(amplitude, rng) + [("numpy.int64", np.int64(amplitude))]):
+            kwargs = {"amplitude": amp, "region": reg}
+            if w_east is not None:
+                kwargs["w_east"] = _spellings_of(w_east, rng)[int(rng.integers(0, 5))][1]
+            if w_north is not None:
+                kwargs["w_north"] = _spellings_of(w_north, rng)[int(rng.integers(0, 5))][1]
+            if how == "set_params":
+                board = verde.synthetic.CheckerBoard()
+                board.set_params(**kwargs)
+            elif how == "positional":
+                board = verde.synthetic.CheckerBoard(kwargs["amplitude"], kwargs["region"], kwargs.get("w_east"), kwargs.get("w_north"))
+            else:
+                board = verde.synthetic.CheckerBoard(**kwargs)
+            _intend(board, amplitude=amplitude, region=tuple(region), w_east=w_east, w_north=w_north)
+            board.predict((qe, qn))
+            if rng.random() < 0.3:
+                board.grid(shape=(4, 5))
+            run.count("spelling:region:" + rlabel)
+            run.count("spelling:amplitude:" + label)
+    run.count("spelling:given_by=" + how)
+    run.sample("spelling", {"kind": ("rescale", "mindist", "poisson", "degree", "checkerboard")[kind], "given_by": how,
+                            "compared": "predict / jacobian of an estimator whose option value is spelled as numpy scalar / int / 0-d array / other container"})
+
+
+_STREAMS = {"spelling": _stream_spelling, "history": _stream_history, "integer": _stream_integer, "ladder": _stream_ladder, "pairs": _stream_pairs, "translation": _stream_translation, "vector": _stream_vector,
             "trend": _stream_trend, "checker": _stream_checker, "scipy": _stream_scipy, "fitted": _stream_fitted}
 
 
